@@ -230,13 +230,13 @@ pub fn singular_query_segments(rule: Pair<Rule>) -> Parsed<Vec<SingularQuerySegm
                 ));
             }
             Rule::index_segment => {
-                segments.push(SingularQuerySegment::Index(
+                segments.push(SingularQuerySegment::Index(validate_range(
                     next_down(r)?
                         .as_str()
                         .trim()
                         .parse::<i64>()
                         .map_err(|e| (e, "int"))?,
-                ));
+                )?));
             }
             _ => return Err(r.into()),
         }
